@@ -746,19 +746,26 @@ class LRun:
 
     def _park_choice(self, acts):
         """Fine phase of a failing-input search run: thread `park[0]` is frozen once it has taken `park[1]` steps of this
-        phase, the other threads and the backend run on (base 0: last enabled action first, i.e. completions, then
-        callbacks, then the caller; base 1: first enabled first); the frozen thread resumes -- for good -- when nobody
-        else can move or when the caller has only been polling (3 x `sleep` in a row with nobody else moving)."""
+        phase; the other threads and the backend run on (base 0: last enabled action first, i.e. completions, then
+        callbacks, then the caller; base 1: first enabled first, i.e. the caller, then callbacks, then completions); a
+        caller that is only polling (parked at `time.sleep`) always comes last, so that it makes one pass of its loop
+        after every step of somebody else; the frozen thread resumes -- for good -- when nobody else can move and the caller has made two idle passes."""
         tid, k, base = (tuple(self.sc.park) + (0, 0, 0))[:3] if self.sc.park else (-1, 0, 0)
-        if tid < 0 or self.released:
-            cand = list(range(len(acts)))
-        else:
-            frozen = self.tsteps.get(tid, 0) >= k
-            cand = [i for i, a in enumerate(acts) if not (frozen and a == ("t", tid))]
-            if not cand or (frozen and self.idle_polls >= 3 and ("t", tid) in acts):
-                self.released = True
-                cand = [i for i, a in enumerate(acts) if a == ("t", tid)] or list(range(len(acts)))
-        return cand[0] if base == 1 else cand[-1]
+        order = list(range(len(acts)))
+        if base != 1:
+            order.reverse()
+        t0 = self.sched.threads.get(0)
+        polling = t0 is not None and t0.point == "sleep"
+        frozen = tid >= 0 and not self.released and self.tsteps.get(tid, 0) >= k
+        cand = [i for i in order if not (frozen and acts[i] == ("t", tid)) and not (polling and acts[i] == ("t", 0))]
+        if cand:
+            return cand[0]
+        if polling and ("t", 0) in acts and (self.idle_polls < 2 or not (frozen and ("t", tid) in acts)):
+            return acts.index(("t", 0))      # one more pass of the caller's polling loop
+        if frozen and ("t", tid) in acts:
+            self.released = True
+            return acts.index(("t", tid))
+        return order[0]
 
     def _loop(self, caller):
         s = self.sched
@@ -1390,6 +1397,8 @@ def run_lock_scenarios(ctx, res, prop, n_quick=800, n_thorough=24000, budget_qui
                 res.sample(dict(m1lseq=sc.to_json(), steps=r.steps, stale_thread_steps=k))
     res.count("m1l-distinct-interleavings", len(seen))
     res.count("m1l-stale-thread-steps", stale_steps)
+    if any(d.get("stream") in ("m1l-steplog", "m1lu-steplog") for d in res.divergences):
+        search_divergences(ctx, res, prop, driver, 240.0 if ctx.thorough else 60.0)
     for note in _PROBE_NOTES:
         if note not in res.notes:
             res.notes.append(note)
@@ -1402,6 +1411,78 @@ def run_lock_scenarios(ctx, res, prop, n_quick=800, n_thorough=24000, budget_qui
                      f"M1LU; {len(seen)} distinct interleavings with >= 3 pre-emptions; "
                      f"wall {_time.time() - t0:.1f}s")
     return res
+
+
+def search_divergences(ctx, res, prop, driver, budget):
+    """Failing-input search of the M1L / M1LU / M1L-Seq streams, run ONLY when a forced real-thread schedule diverged from
+    the model's step log (a different sequence of scheduling points: typically a changed lock scope).  No model from here
+    on, the oracles alone judge.  For a few diverging scenarios: the schedule prefix up to the diverging step (and two
+    shorter prefixes) is forced at the models' granularity; from there on the scheduler exposes EVERY lock operation (the
+    re-entrant ones too) and every access to a shared attribute (also by the lock owner), and for every thread T of the
+    run and every point k of T one run is made in which T is parked at its k-th point while all the others -- the
+    backend, the callbacks, the caller -- run on to their end, in two orders (`LRun._park_choice`); so "every callback
+    parked at each of its points in turn while the caller runs to its end" and vice versa.  A run the oracles reject is
+    reported as a failing input; its scenario (with `fine_from` / `park`) is the replay."""
+    import dataclasses
+    t0 = _time.time()
+    divs, seen_cases = [], set()
+    for d in res.divergences:
+        if d.get("stream") not in ("m1l-steplog", "m1lu-steplog") or d.get("case", {}).get("kind") != "m1l":
+            continue
+        key = json.dumps(d["case"], sort_keys=True)
+        if key not in seen_cases:
+            seen_cases.add(key)
+            divs.append(d["case"])
+    divs.sort(key=lambda c: (len(c.get("calls", [])), sum(x[0] for x in c.get("calls", [])), len(c.get("sched", []))))
+    runs = found = 0
+    tried = []
+    for case in divs[:4]:
+        if _time.time() - t0 > budget or found >= 2:
+            break
+        sc0 = LScenario.from_json(case)
+        (_, r0, mlog), = run_batch([sc0], driver, parallel=False)
+        ilog = r0.log
+        mlist = mlog.split(" | ") if mlog is not None else ilog
+        k = 0
+        while k < len(ilog) and k < len(mlist) and ilog[k] == mlist[k]:
+            k += 1
+        sol = r0.step_of_log or [0]
+        d_step = max(sol[min(k, len(sol) - 1)] - 1, 0)
+        tried.append(d_step)
+        case_found = False
+        for prefix in sorted({d_step, max(d_step - 6, 0), 0}, reverse=True):
+            if case_found or _time.time() - t0 > budget:
+                break
+            base_sc = dataclasses.replace(sc0, fine_from=prefix, park=())
+            (_, rref, _), = run_batch([base_sc], driver, parallel=False)
+            runs += 1
+            scs = []
+            tids = sorted(rref.tsteps, key=lambda t: (t == 0, t))      # callbacks first, then the caller
+            for base in (1, 0):
+                for tid in tids:
+                    n = rref.tsteps[tid] + 1
+                    ks = range(n) if n <= 60 else sorted(set(int(i * n / 60) for i in range(60)))
+                    scs += [dataclasses.replace(sc0, fine_from=prefix, park=(tid, kk, base)) for kk in ks]
+            for i in range(0, len(scs), 96):
+                if case_found or _time.time() - t0 > budget:
+                    break
+                for sc, r, _ in run_batch(scs[i:i + 96], driver):
+                    runs += 1
+                    res.evaluations += 1
+                    for sig, detail in oracle(r):
+                        if _sig_for(prop, sig) and not case_found:
+                            case_found = True
+                            found += 1
+                            res.fail("m1l:" + sig, dict(kind="m1l", **sc.to_json()),
+                                     detail + f" [failing-input search around the step-log divergence at step {d_step + 1}: "
+                                              f"the first {sc.fine_from} steps forced, then thread {sc.park[0]} parked at its "
+                                              f"point {sc.park[1]} of the fine-grained phase while the others run on "
+                                              f"(order {sc.park[2]}); outcomes {r.outcomes!r}]")
+    res.count("m1l-search-runs", runs)
+    res.notes.append(f"m1l failing-input search: {len(divs)} diverging scenario(s), {min(len(divs), 4)} searched (diverging steps "
+                     f"{tried}), {runs} fine-grained real-thread runs with one thread parked at each of its points in turn, "
+                     f"{found} rejected by the oracles; wall {_time.time() - t0:.1f}s")
+    return found
 
 
 def stale_thread_steps(log):
